@@ -406,7 +406,7 @@ fn main() {
     let tier = args.tier;
     let dates = b_dates(tier);
     let small = b_dates_small();
-    let times = b_times(true);
+    let times = b_times_fracs(true);
     let offs: Vec<i32> = vec![0, 60, -60, 3600, 19800, -34200, 50400, -43200, 86340, -86340, 29, -30, 3599, 10770, -21585];
     let nd = dates.len() as u64;
     let nt = times.len() as u64;
